@@ -10,192 +10,8 @@
   the source changes the generated file and the corresponding theorem no longer checks; an algebraically
   equal rewrite still does (the proofs go through `ring`).
 -/
-import Boario.Gen.Formulas
-import Boario.Econ
-import Boario.Events
-import Mathlib.Tactic.Ring
-import Mathlib.Tactic.SplitIfs
-import Mathlib.Tactic.Linarith
-
-set_option linter.unusedTactic false
-set_option linter.unreachableTactic false
-
-set_option linter.unusedSimpArgs false
-set_option linter.unnecessarySeqFocus false
-
-namespace Boario.Gen
-open Boario
-
-variable {d : Dims}
-
-/-- close `code expression = model expression` over `Rat`: unfold both, turn `max` / `min` into case splits,
-    split every `if`, and close each leaf by a ring identity or by linear arithmetic from the case hypotheses
-    (contradictory cases included).  Deliberately insensitive to the order of factors, to `np.where` against
-    indicator products and to `np.maximum` against masked assignment. -/
-macro "formula_cases" : tactic =>
-  `(tactic| (
-      (try simp only [max_def, min_def, gt_iff_lt, ge_iff_le, ne_eq, ite_not, mul_ite, ite_mul, mul_one, mul_zero,
-        one_mul, zero_mul, add_zero, zero_add]) <;>
-      (try split_ifs) <;>
-        first
-          | rfl
-          | ring1
-          | linarith
-          | (exfalso; linarith)
-          | (exfalso; simp_all; done)
-          | (simp_all; done)
-          | (simp_all; ring1)
-          | (simp_all; linarith)))
-
-/-- `calc_overproduction` of the source is the model's `overprod`, industry by industry. -/
-theorem overprod_is_code (p : Params d) (alpha dTot prod : Ind d → Rat) (f : Ind d) :
-    calc_overproduction (alpha f) p.aMax p.aBase p.aTau (dTot f) (prod f) = overprod p alpha dTot prod f := by
-  simp only [calc_overproduction, overprod, alphaChg, scarcity]
-  by_cases h0 : dTot f = 0
-  · simp only [h0, ne_eq, not_true_eq_false, if_false, not_false_eq_true, if_true, lt_irrefl, le_refl, gt_iff_lt]
-    formula_cases
-  · simp only [h0, ne_eq, not_true_eq_false, if_false, not_false_eq_true, if_true]
-    formula_cases
-
-/-- `production_cap` of the source is the model's `capacity`. -/
-theorem capacity_is_code (p : Params d) (deltaTot alpha : Ind d → Rat) (f : Ind d) :
-    production_cap (p.x0 f) (deltaTot f) (alpha f) = capacity p deltaTot alpha f := by
-  (try simp only [production_cap, capacity]) <;> first | rfl | ring1
-
-/-- `production_cap` raises exactly when the model's step is rejected for a negative capacity. -/
-theorem capNegative_is_code (p : Params d) (deltaTot alpha : Ind d → Rat) :
-    capNegative p deltaTot alpha ↔ ∃ f : Ind d, production_cap_rejects (p.x0 f) (deltaTot f) (alpha f) := by
-  simp only [capNegative, production_cap_rejects, capacity]
-  constructor
-  · rintro ⟨r, s, h⟩; exact ⟨(r, s), h⟩
-  · rintro ⟨⟨r, s⟩, h⟩; exact ⟨r, s, h⟩
-
-/-- `production_opt` of the source is the model's `xOpt`. -/
-theorem xOpt_is_code (p : Params d) (dTot deltaTot alpha : Ind d → Rat) (f : Ind d) :
-    production_opt (dTot f) (production_cap (p.x0 f) (deltaTot f) (alpha f)) = xOpt p dTot deltaTot alpha f := by
-  simp only [production_opt, production_cap, xOpt, capacity] <;>
-    (first | rfl | (congr 1; ring1) | (rw [min_comm]; first | rfl | (congr 1; ring1)))
-
-/-- `ARIOPsiModel.calc_inventory_constraints` of the source is the model's `cons`, cell by cell
-    (`durOrZero` is `nan_to_num(inv_duration, posinf=0)`). -/
-theorem cons_is_code (p : Params d) (x : Ind d → Rat) (s : Fin d.n) (f : Ind d) :
-    calc_inventory_constraints_psi (x f) (p.a s f) p.psi (durOrZero p s) = cons p x s f := by
-  simp only [calc_inventory_constraints_psi, cons] <;>
-    (first | rfl | ring1)
-
-/-- the base class computes the same constraint without the factor psi. -/
-theorem cons_base_is_code (p : Params d) (x : Ind d → Rat) (s : Fin d.n) (f : Ind d) (hpsi : p.psi = 1) :
-    calc_inventory_constraints_base (x f) (p.a s f) (durOrZero p s) = cons p x s f := by
-  simp only [calc_inventory_constraints_base, cons, hpsi] <;>
-    (first | rfl | ring1)
-
-/-- one cell of `distributed_production` in the source is the model's `deliverCell` (demand / row total × production,
-    0 for a row without demand). -/
-theorem deliverCell_is_code (tot prod cell : Rat) : delivery_cell cell tot prod = deliverCell tot prod cell := by
-  simp only [delivery_cell, deliverCell, safeDiv] <;>
-    formula_cases
-
-/-- every delivery of the step is the code's cell formula applied to the fresh row total. -/
-theorem deliveries_are_code (e : Econ d) (i j : Ind d) (c : Fd d) :
-    (deliveries e).orders i j = delivery_cell (e.orders i j) (rowTot e.orders e.fd e.reb i) (e.prod i) ∧
-    (deliveries e).fd i c = delivery_cell (e.fd i c) (rowTot e.orders e.fd e.reb i) (e.prod i) := by
-  constructor <;> (rw [deliverCell_is_code]; rfl)
-
-/-- `stock_use` of the source is the model's `stockUse`. -/
-theorem stockUse_is_code (p : Params d) (prod : Ind d → Rat) (s : Fin d.n) (f : Ind d) :
-    stock_use_cell (prod f) (p.a s f) = stockUse p prod s f := by
-  simp only [stock_use_cell, stockUse] <;>
-    (first | rfl | ring1)
-
-/-- the inventory update of the source is the model's `stockUpdated`. -/
-theorem stockUpdated_is_code (p : Params d) (e : Econ d) (dl : Ind d → Ind d → Rat) (s : Fin d.n) (f : Ind d) :
-    stock_update_cell (e.stock s f) (stock_use_cell (e.prod f) (p.a s f)) (stockAdd dl s f) = stockUpdated p e dl s f := by
-  simp only [stock_update_cell, stock_use_cell, stockUpdated, stockUse] <;>
-    (first | rfl | ring1)
-
-/-- the reconstruction ledger after delivery is the model's `subBlock`, cell by cell. -/
-theorem subBlock_is_code (b c : RebBlock d) (i j : Ind d) (cc : Fd d) :
-    (subBlock b c).indus i j = rebuild_demand_cell (b.indus i j) (c.indus i j) ∧
-    (subBlock b c).house i cc = rebuild_demand_cell (b.house i cc) (c.house i cc) := by
-  constructor <;> (simp only [subBlock, rebuild_demand_cell] <;> (first | rfl | ring1))
-
-/-- `calc_orders`: the need of an input is the model's `needWith`. -/
-theorem needWith_is_code (p : Params d) (gap : Fin d.n → Ind d → Rat) (prod : Ind d → Rat) (s : Fin d.n) (f : Ind d) :
-    need_cell (gap s f) (prod f) (p.a s f) = needWith p gap prod s f := by
-  simp only [need_cell, needWith] <;>
-    (first | rfl | ring1)
-
-/-- alt branch: the capacity-weighted flow of the source is the model's `zProd` (relative capacity 1 where x0 = 0). -/
-theorem zProd_is_code (p : Params d) (deltaTot alpha : Ind d → Rat) (i j : Ind d) :
-    z_prod_cell (production_cap (p.x0 i) (deltaTot i) (alpha i)) (p.x0 i) (p.Z0 i j) = zProd p deltaTot alpha i j := by
-  simp only [z_prod_cell, production_cap, zProd, rho, capacity, safeDiv] <;>
-    formula_cases
-
-/-- alt branch: the supplier share of the source, given the regional sum of the code's own `Z_prod` cells, is the
-    model's `altShare`. -/
-theorem altShare_is_code (p : Params d) (deltaTot alpha : Ind d → Rat) (i j : Ind d) :
-    alt_share_cell (z_prod_cell (production_cap (p.x0 i) (deltaTot i) (alpha i)) (p.x0 i) (p.Z0 i j))
-        (sumFin d.m fun r => z_prod_cell (production_cap (p.x0 (r, i.2)) (deltaTot (r, i.2)) (alpha (r, i.2))) (p.x0 (r, i.2)) (p.Z0 (r, i.2) j))
-      = altShare p deltaTot alpha i j := by
-  have hz : ∀ a b, z_prod_cell (production_cap (p.x0 a) (deltaTot a) (alpha a)) (p.x0 a) (p.Z0 a b) = zProd p deltaTot alpha a b :=
-    fun a b => zProd_is_code p deltaTot alpha a b
-  simp only [hz]
-  simp only [alt_share_cell, altShare, zCProd, safeDiv] <;>
-    formula_cases
-
-/-- the orders of the source, cell by cell, are the model's `ordersFrom` in both variants. -/
-theorem ordersFrom_is_code (p : Params d) (e : Econ d) (gap : Fin d.n → Ind d → Rat) (i j : Ind d) :
-    ordersFrom p e gap i j =
-      if p.alt then alt_order_cell (need_cell (gap i.2 j) (e.prod j) (p.a i.2 j)) (altShare p e.deltaTot e.alpha i j)
-      else noalt_order_cell (need_cell (gap i.2 j) (e.prod j) (p.a i.2 j)) (p.Zshare i j) := by
-  simp only [ordersFrom, supplierShare, alt_order_cell, noalt_order_cell, needWith_is_code]
-  split_ifs <;> first | rfl | ring1
-
-/-- a masked cap `r[r > 1] = 1` is `min 1 r` -/
-theorem cap_eq_min (q : Rat) : (if q > 1 then (1 : Rat) else q) = min 1 q := by
-  rw [min_def]; split_ifs <;> first | rfl | linarith | (exfalso; linarith)
-
-/-- the shortage branch of `calc_production`: one cell of `production_max` is optimal production times the model's
-    `ratio` (stock over constraint, capped at 1, only for inputs above the technology threshold). -/
-theorem production_max_is_code (p : Params d) (stock : Fin d.n → Ind d → Rat) (x : Ind d → Rat) (s : Fin d.n) (f : Ind d) :
-    production_max_cell (p.thr s f) (stock s f) (cons p x s f) (x f) = x f * ratio p stock x s f := by
-  simp only [production_max_cell, ratio]
-  by_cases h : p.thr s f = true ∧ cons p x s f ≠ 0
-  · simp only [h, and_self, ne_eq, not_false_eq_true, if_true, cap_eq_min] <;>
-      (first | rfl | ring1 | (rw [min_comm]; first | rfl | ring1) | formula_cases)
-  · have h' : ¬ (p.thr s f = true ∧ ¬ cons p x s f = 0) := h
-    simp only [h, h', ne_eq, if_false, cap_eq_min] <;>
-      (first | rfl | ring1 | (simp; done) | formula_cases)
-
-/-- `linear_recovery` of the source is the model's linear curve (cell-wise `D · g(elapsed)`). -/
-theorem linear_is_code (e : Nat) (D : Rat) (tau : Nat) :
-    linear_recovery e D tau = D * gLinear tau (e : Int) := by
-  simp only [linear_recovery, gLinear, Int.cast_natCast] <;>
-    (first | rfl | ring1)
-
-/-- `convexe_recovery` of the source is the model's geometric curve. -/
-theorem convexe_is_code (e : Nat) (D : Rat) (tau : Nat) :
-    convexe_recovery e D tau = D * gConvexe tau (e : Int) := by
-  simp only [convexe_recovery, gConvexe, Int.toNat_natCast] <;>
-    (first | rfl | ring1)
-
-/-- `convexe_recovery_scaled` of the source is the model's scaled geometric curve (default scaling 4). -/
-theorem convexe_scaled_is_code (e : Nat) (D : Rat) (tau : Nat) :
-    convexe_recovery_scaled e D tau = D * gConvexeScaled tau (e : Int) := by
-  simp only [convexe_recovery_scaled, gConvexeScaled, Int.toNat_natCast] <;>
-    (first | rfl | ring1)
-
-/-- the curves as the trackers use them (`cellwiseI`): the code's formula applied to each cell. -/
-theorem cellwise_linear_is_code (tau : Nat) (e : Nat) (D : Ind d → Rat) (i : Ind d) :
-    cellwiseI (gLinear tau) (e : Int) D i = linear_recovery e (D i) tau := by
-  rw [linear_is_code]; rfl
-
-theorem cellwise_convexe_is_code (tau : Nat) (e : Nat) (D : Ind d → Rat) (i : Ind d) :
-    cellwiseI (gConvexe tau) (e : Int) D i = convexe_recovery e (D i) tau := by
-  rw [convexe_is_code]; rfl
-
-theorem cellwise_convexe_scaled_is_code (tau : Nat) (e : Nat) (D : Ind d → Rat) (i : Ind d) :
-    cellwiseI (gConvexeScaled tau) (e : Int) D i = convexe_recovery_scaled e (D i) tau := by
-  rw [convexe_scaled_is_code]; rfl
-
-end Boario.Gen
+import Boario.Properties.FormulasOverprod
+import Boario.Properties.FormulasProduction
+import Boario.Properties.FormulasDistribute
+import Boario.Properties.FormulasOrders
+import Boario.Properties.FormulasCurves
